@@ -15,16 +15,16 @@ from vmon.ref import geom, pointgroups as pg
 
 ID = 'C22'
 RULE = ('random crystals (all 11 3-D and 5 2-D lattice systems, 1-3 orbits, 1-2 species, 40% in a random rigid orientation, plus '
-        'skewed strained FCC/BCC/hexagonal cells) x random meshes (each division 1..7 (3-D) / 1..12 (2-D); isotropic even, isotropic '
+        'skewed strained FCC/BCC/hexagonal cells; 30% re-described in a singly sheared non-reduced cell with noreduce=True; reduction clauses only when the repository still finds the complete group there) x random meshes (each division 1..7 (3-D) / 1..12 (2-D); isotropic even, isotropic '
         'odd, anisotropic mixed) x 6 random lattice-vector shells per mesh; non-trivial = mesh with more than one point; '
         'distinct = (kind, |G|, mesh)')
 ASSUMPTIONS = ['a fullkptmesh call that has not returned after 60 s (normal: < 1 s) is reported as non-terminating',
-               'Brillouin-zone membership |k|^2 <= |k-G|^2 + 1e-9 |G|^2 over all reciprocal vectors with indices |m| <= 5 (the '
+               'Brillouin-zone membership |k|^2 <= |k-G|^2 + 1e-9 |G|^2 over all reciprocal vectors with indices |m| <= 5 (<= 8 for sheared cells; the '
                'repository builds its zone from |m| <= 3)',
                'averages compared to 1e-12 x (number of terms in the shell); mesh points compared in reduced coordinates to 1e-9']
 REQUIRED_OBS = {'meshes_checked': 100, 'eval:C22:in-first-BZ': 100, 'eval:C22:full-mesh-complete': 100, 'eval:C22:weights-sum': 100,
                 'eval:C22:invariant-average': 500, 'mesh:even': 10, 'mesh:odd': 10, 'mesh:anisotropic': 20, 'dim2_meshes': 20,
-                'dim3_meshes': 20, 'reduced_smaller': 50, 'folded_points': 100, 'boundary_points': 20, 'nonzero_averages': 100}
+                'dim3_meshes': 20, 'reduced_smaller': 50, 'folded_points': 100, 'boundary_points': 20, 'nonzero_averages': 100, 'sheared_cells': 8}
 CASE_TIMEOUT = 600
 EXTRA_KINDS = ('strainF', 'strainI', 'strainH3', 'strainH2')
 
@@ -105,12 +105,38 @@ def run_case(case):
             R = L @ M @ Linv
             if not any(np.allclose(R, R2, atol=1e-9) for R2 in rots): rots.append(R)
         mon.seen('point_group_orders', len(rots))
-        Gidx = np.array([m for m in itertools.product(range(-5, 6), repeat=dim) if any(m)])
+        ctags = []
+        reduction_ok = True
+        if rng.uniform() < case.get('psheared', 0.3):
+            # the same crystal described in a sheared (non-reduced) cell, taken as is (noreduce=True): the zone needs
+            # reciprocal vectors with larger indices; the point group (Cartesian) is the one found on the reduced cell
+            M = np.eye(dim, dtype=int)
+            a, b = rng.choice(dim, size=2, replace=False)
+            M[a, b] += int(rng.choice([-2, -1, 1, 2]))      # one shear a_b -> a_b + m a_a: zone needs indices up to 1+|m| <= 3
+            if abs(round(np.linalg.det(M))) == 1 and np.max(np.abs(np.linalg.inv(M))) < 3.5 and np.max(np.abs(M)) <= 2:
+                Minv = np.linalg.inv(M)
+                sheared = None
+                with mon.guard('C22:construct-noreduce'):
+                    sheared = crystal.Crystal(L @ M, [[Minv @ u for u in lst] for lst in crys.basis], noreduce=True)
+                if sheared is not None and np.allclose(sheared.lattice, L @ M):
+                    crys, L = sheared, sheared.lattice
+                    Linv = np.linalg.inv(L)
+                    B = 2 * np.pi * Linv.T
+                    kind = kind + '+sheared'
+                    ctags = ['noreduce-sheared-cell']
+                    mon.count('sheared_cells')
+                    # with noreduce=True the repository searches its operations in the given (sheared) basis and may find
+                    # an incomplete, non-closed set (domain of C18); the reduction clauses need a group
+                    reduction_ok = len(sheared.G) == len(refG)
+                    mon.count('sheared_cells_with_complete_group', reduction_ok)
+        big = 8 if ctags else 5
+        Gidx = np.array([m for m in itertools.product(range(-big, big + 1), repeat=dim) if any(m)])
         Gv = Gidx @ B.T
         G2 = np.einsum('ij,ij->i', Gv, Gv)
         for km in range(case['nmesh']):
             N = rand_mesh(rng, dim, case['maxpts'])
             nk = int(np.prod(N))
+            mtags = ctags + (['anisotropic-mesh'] if len(set(N)) > 1 else ['isotropic-mesh'])
             desc = {'kind': kind, 'lattice': L, 'basis': crys.basis, 'Nmesh': N, 'hashseed': case.get('hashseed')}
             if sample is None: sample = desc
             detail = lambda: str(desc)
@@ -121,7 +147,7 @@ def run_case(case):
             except MeshTimeout:
                 # a mesh of <= 1500 points normally takes well under a second
                 mon.check(False, 'C22:fullkptmesh-terminates', lambda: 'no result within %d s %s' % (MESH_DEADLINE, desc),
-                          tags=['anisotropic-mesh'] if len(set(N)) > 1 else ['isotropic-mesh'])
+                          tags=mtags)
                 return mon.result(sample=sample)   # one witness per case is enough; do not wait for more
             mon.check(True, 'C22:fullkptmesh-terminates')
             if kpts is None:
@@ -140,7 +166,7 @@ def run_case(case):
             viol = 2 * kpts @ Gv.T - G2[None, :]
             worst = float(np.max(viol / G2[None, :]))
             mon.check(worst <= 1e-9, 'C22:in-first-BZ', lambda: 'max (2k.G-G.G)/G.G = %.3e %s' % (worst, desc),
-                      tags=['anisotropic-mesh'] if len(set(N)) > 1 else ['isotropic-mesh'])
+                      tags=mtags)
             mon.count('boundary_points', int(np.sum(np.any(np.abs(viol) <= 1e-9 * G2[None, :], axis=1))))
             # --- complete uniform mesh modulo the reciprocal lattice
             frac = kpts @ L / (2 * np.pi)               # k = B f  =>  f = L^T k / 2 pi
@@ -150,11 +176,14 @@ def run_case(case):
             idx = np.mod(np.round(rel).astype(int), np.array(N)[None, :])
             cells = {tuple(r) for r in idx.tolist()}
             mon.check(onmesh < 1e-9 and len(cells) == nk, 'C22:full-mesh-complete',
-                      lambda: 'off-mesh %.2e, %d distinct points of %d %s' % (onmesh, len(cells), nk, desc))
+                      lambda: 'off-mesh %.2e, %d distinct points of %d %s' % (onmesh, len(cells), nk, desc), tags=mtags)
             off = np.abs(scaled[0] - np.round(scaled[0]))
             mon.count('mesh_gamma_centred' if np.all(off < 1e-9) else 'mesh_shifted')
             mon.count('folded_points', int(np.sum(np.any(np.abs(frac) > 0.5 + 1e-9, axis=1))))
             # --- reduction
+            if not reduction_ok:
+                mon.count('reduction_skipped_incomplete_group')
+                continue
             red = None
             with mon.guard('C22:reducekptmesh'):
                 red = crys.reducekptmesh(kpts.copy())
@@ -195,7 +224,7 @@ def run_case(case):
                 red_avg = (w * fred).sum()
                 mon.close(np.array([red_avg.real, red_avg.imag]), np.array([full_avg.real, full_avg.imag]), 1e-12,
                           'C22:invariant-average', lambda: 'shell of %s (%d vectors): reduced %s full %s %s' % (n.tolist(), len(shell), red_avg, full_avg, desc),
-                          scale=len(shell))
+                          scale=len(shell), tags=mtags)
                 mon.seen('shell_sizes', len(shell))
                 if abs(full_avg) > 1e-6: mon.count('nonzero_averages')
     return mon.result(sample=sample)
